@@ -124,82 +124,86 @@ func checkC14(c *Ctx) {
 			continue
 		}
 		for _, sc := range ctxs {
-			// the decision: a lookup in startedSending whose not-found arm is mandatory for this context
-			var decision *ssa.Lookup
-			var decisionAt ssa.Instruction
+			// the decisions: lookups in startedSending whose not-found arm is mandatory for this context —
+			// directly, or through a helper returning the lookup's flag (e.g. hasStartedSending).  An early
+			// unlocked look is harmless as long as ONE decision shares the critical section of the store.
+			type cand struct {
+				lk *ssa.Lookup
+				at ssa.Instruction
+			}
+			var cands []cand
 			for _, f := range sc.Facts() {
 				if f.Op != 0 || f.True {
 					continue
 				}
 				if tup, isOK := commaOK(f.Bool); isOK {
 					if lk, isL := tup.(*ssa.Lookup); isL && isLoadOfField(lk.X, b.fStarted) {
-						decision = lk
-						decisionAt = lk
+						cands = append(cands, cand{lk, lk})
 					}
 				}
-			}
-			if decision == nil {
-				// decision taken through a helper returning the lookup's flag (e.g. hasStartedSending): find it
-				for _, f := range sc.Facts() {
-					if f.Op != 0 || f.True {
-						continue
-					}
-					if cl, isC := strip(f.Bool).(*ssa.Call); isC {
-						if cal := staticCallee(&cl.Call); cal != nil {
-							for _, in := range instrsOf(cal) {
-								if lk, isL := in.(*ssa.Lookup); isL && isLoadOfField(lk.X, b.fStarted) {
-									decision = lk
-									decisionAt = cl
-								}
+				if cl, isC := stripNoParam(f.Bool).(*ssa.Call); isC {
+					if cal := staticCallee(&cl.Call); cal != nil {
+						for _, in := range instrsOf(cal) {
+							if lk, isL := in.(*ssa.Lookup); isL && isLoadOfField(lk.X, b.fStarted) {
+								cands = append(cands, cand{lk, cl})
 							}
 						}
 					}
 				}
 			}
 			construct := "decide-and-store via " + ctxName(sc)
-			if decision == nil {
+			if len(cands) == 0 {
 				c.Bad(L1, FuncName(st.Parent()), construct, m.Pos(st.Pos()), "the append is not conditional on the topic not having started: messages for started topics are buffered for ever")
 				continue
 			}
-			// same exclusive section: the instruction (in the decision's function) that leads to the append holds Box.lock
-			// exclusively, and so does the decision, and both are covered by the same acquisition.
-			var lead ssa.Instruction = st
-			for k := len(sc.Calls) - 1; k >= 0; k-- {
-				if sc.Calls[k].Parent() == decisionAt.Parent() {
-					lead = sc.Calls[k].(ssa.Instruction)
-				}
-			}
-			if st.Parent() == decisionAt.Parent() {
-				lead = st
-			}
-			okSec := false
 			async := false
 			for _, cs := range sc.Calls {
 				if _, isCall := cs.(*ssa.Call); !isCall {
 					async = true // go / defer: the store does not run inside the caller's critical section
 				}
 			}
-			if lead.Parent() == decisionAt.Parent() && !async {
-				s1 := b.la.sectionOf(decisionAt, b.boxLock)
-				s2 := b.la.sectionOf(lead, b.boxLock)
-				okSec = s1 != nil && s1 == s2 && b.la.Holds(decisionAt, b.boxLock, LockW) && b.la.Holds(lead, b.boxLock, LockW) && decision.Parent() == decisionAt.Parent()
+			okSec := false
+			var shown ssa.Instruction
+			for _, cd := range cands {
+				decision, decisionAt := cd.lk, cd.at
+				shown = decisionAt
+				// same exclusive section: the instruction (in the decision's function) that leads to the append holds Box.lock
+				// exclusively, and so does the decision, and both are covered by the same acquisition.
+				var lead ssa.Instruction = st
+				for k := len(sc.Calls) - 1; k >= 0; k-- {
+					if sc.Calls[k].Parent() == decisionAt.Parent() {
+						lead = sc.Calls[k].(ssa.Instruction)
+					}
+				}
+				if st.Parent() == decisionAt.Parent() {
+					lead = st
+				}
+				if lead.Parent() == decisionAt.Parent() && !async {
+					s1 := b.la.sectionOf(decisionAt, b.boxLock)
+					s2 := b.la.sectionOf(lead, b.boxLock)
+					if s1 != nil && s1 == s2 && b.la.Holds(decisionAt, b.boxLock, LockW) && b.la.Holds(lead, b.boxLock, LockW) && decision.Parent() == decisionAt.Parent() {
+						okSec = true
+						shown = decisionAt
+						break
+					}
+				}
 			}
-			c.Check(okSec, L1, FuncName(decisionAt.Parent()), construct, m.Pos(decisionAt.Pos()),
+			c.Check(okSec, L1, FuncName(shown.Parent()), construct, m.Pos(shown.Pos()),
 				"the startedSending lookup and the (call leading to the) append hold Box.lock exclusively within one acquisition",
 				"the decision \"not started yet\" and the store are taken in different critical sections: if the local party's first Send on the topic runs in between, it drains and deletes the buffer, and this message is then parked in a fresh buffer that nothing drains — it is never handed to the protocol")
 		}
 	}
 	// ------------------------------------------------------------------ L1 (Send side)
 	var markSt *ssa.MapUpdate
-	for _, mu := range mapUpdatesOfField([]*ssa.Function{b.send}, b.fStarted) {
+	for _, mu := range mapUpdatesOfField(deepFuncs(b.send), b.fStarted) {
 		markSt = mu
 	}
 	var snap *ssa.Lookup
-	for _, lk := range lookupsOfField([]*ssa.Function{b.send}, b.fPending) {
+	for _, lk := range lookupsOfField(deepFuncs(b.send), b.fPending) {
 		snap = lk
 	}
 	var del ssa.CallInstruction
-	for _, d := range mapDeletesOfField([]*ssa.Function{b.send}, b.fPending) {
+	for _, d := range mapDeletesOfField(deepFuncs(b.send), b.fPending) {
 		del = d
 	}
 	if markSt == nil || snap == nil || del == nil {
